@@ -555,7 +555,9 @@ where
         // check read timer
         if self.flags.contains(Flags::READ_TIMEOUT) {
             if let Some(params) = self.io.cfg().frame_read_rate() {
-                let total = self.read_remains - self.read_remains_prev;
+                // decoder could consume part of the frame (fixed header), number
+                // of buffered bytes is not monotonic
+                let total = self.read_remains.saturating_sub(self.read_remains_prev);
 
                 // read rate, start timer for next period
                 if total > params.rate {
